@@ -13,7 +13,7 @@ CONSTANTS
   Queries <- MCQueries
   FixEmptySnapshot = TRUE
   FixBoolAdvance = TRUE
-  FixShouldMin = FALSE
+  FixShouldMin = TRUE
   FirstAdvanceOK <- FirstAdvAlways
 INVARIANT ResultOK
 INVARIANT NoPanic
